@@ -14,6 +14,7 @@ import GoaktVerif.Lemmas.C46.FanIn
 import GoaktVerif.Lemmas.C46.Hub
 import GoaktVerif.Lemmas.C46.HubCancel
 import GoaktVerif.Lemmas.C46.Zip
+import GoaktVerif.Props.C45
 
 namespace GoaktVerif.C46
 open GoaktVerif.Model.C45 (Val Down)
@@ -165,6 +166,127 @@ theorem C46_holds : C46_full :=
    broadcast_correct, balance_correct, partition_correct, broadcast_cancel_correct, partition_cancel_correct,
    fun n hn evs hok => zip_correct n hn evs hok⟩
 
+
+/-! ### composed: a fan-in junction FED BY SUB-PIPELINES — per-branch order end to end
+
+In the code every sub-source of Merge / Concat / Zip is a whole pipeline materialised with an internal sink that
+forwards each element it consumes to the junction actor (`mergeSubValue{slot, v}`), in order. Here slot `i` is fed
+by a C45 network `mkNet fusion stages input` under ANY schedule `picks`; `FedBy` is the forwarding link (what slot
+`i` has handed to the junction is a prefix of what sub-pipeline `i`'s sink has consumed — per-sender FIFO).
+`C45_holds` (each sub-pipeline delivers a prefix of its list semantics, all of it at normal completion) composed
+with the junction clauses gives: the elements the junction emits from branch `i` are, in order, a prefix of
+`sem stagesᵢ inputᵢ`; a Merge that completes after every sub-pipeline completed emits an interleaving of the
+`sem stagesᵢ inputᵢ`. -/
+
+open GoaktVerif.Model.C45 (Stage Pick SinkSt mkNet Net) in
+/-- a sub-pipeline feeding one slot, with the schedule it runs under -/
+structure SubPipe where
+  fusion : Bool
+  stages : List Stage
+  input : List Val
+  picks : List Pick
+
+open GoaktVerif.Model.C45 (SinkSt mkNet) in
+def SubPipe.sink? (p : SubPipe) : Option SinkSt := ((mkNet p.fusion p.stages p.input).run p.picks).sink?
+
+/-- the list semantics of the sub-pipeline -/
+def SubPipe.ideal (p : SubPipe) : List Val := (GoaktVerif.Spec.C45.sem p.stages p.input).1
+
+/-- typed, ordered sub-pipelines (the class `C45_holds` covers) -/
+def SubPipe.ok (p : SubPipe) : Prop :=
+  GoaktVerif.C45.orderedPipeline p.stages = true ∧ GoaktVerif.C45.Homog p.input
+
+/-- the forwarding link between the sub-pipelines' internal sinks and the junction -/
+def FedBy (subs : List SubPipe) (arr : List Tagged) : Prop :=
+  ∀ (i : Nat) (p : SubPipe), subs[i]? = some p → ∃ s, p.sink? = some s ∧ proj arr i <+: s.received
+
+/-- every sub-pipeline has completed normally and everything it delivered has reached the junction -/
+def FedDone (subs : List SubPipe) (arr : List Tagged) : Prop :=
+  ∀ (i : Nat) (p : SubPipe), subs[i]? = some p →
+    ∃ s, p.sink? = some s ∧ s.alive = false ∧ s.termErr = none ∧ proj arr i = s.received
+
+theorem proj_prefix {α : Type} {l1 l2 : List (Nat × α)} (h : l1 <+: l2) (i : Nat) : proj l1 i <+: proj l2 i := by
+  obtain ⟨t, rfl⟩ := h
+  simp only [proj, List.filter_append, List.map_append]
+  exact List.prefix_append _ _
+
+/-- a sub-pipeline's deliveries are a prefix of its list semantics (C45_holds) -/
+theorem fed_prefix (subs : List SubPipe) (arr : List Tagged) (hok : ∀ p ∈ subs, p.ok) (hf : FedBy subs arr)
+    (i : Nat) (p : SubPipe) (hp : subs[i]? = some p) : proj arr i <+: p.ideal := by
+  obtain ⟨s, hs, hpre⟩ := hf i p hp
+  obtain ⟨ho, hin⟩ := hok p (List.mem_of_getElem? hp)
+  exact hpre.trans (GoaktVerif.C45.C45_holds p.fusion p.stages p.input p.picks s ho hin hs).2.2.1
+
+theorem fed_done (subs : List SubPipe) (arr : List Tagged) (hok : ∀ p ∈ subs, p.ok) (hf : FedDone subs arr)
+    (i : Nat) (p : SubPipe) (hp : subs[i]? = some p) : proj arr i = p.ideal := by
+  obtain ⟨s, hs, ha, he, heq⟩ := hf i p hp
+  obtain ⟨ho, hin⟩ := hok p (List.mem_of_getElem? hp)
+  rw [heq]
+  exact ((GoaktVerif.C45.C45_holds p.fusion p.stages p.input p.picks s ho hin hs).2.2.2.1 ha he).1
+
+/-- MERGE fed by sub-pipelines, every junction message order, every schedule of every sub-pipeline -/
+def MergeComposedClause : Prop :=
+  ∀ (subs : List SubPipe) (evs : List JEv), noWire evs → (∀ p ∈ subs, p.ok) →
+    let r := mergeRun (mergeInit subs.length) evs
+    -- at every moment: branch i's elements in the output are, in order, a prefix of its list semantics
+    (FedBy subs r.2.arr → ∀ (i : Nat) (p : SubPipe), subs[i]? = some p → proj r.2.sent i <+: p.ideal) ∧
+    -- completion after all sub-pipelines completed: an interleaving of the list semantics of the branches
+    (FedDone subs r.2.arr → (∀ p ∈ r.2.arr, p.1 < subs.length) → r.2.completed = true → r.2.cancelled = false →
+      Interleave (subs.map SubPipe.ideal) (r.2.sent.map (·.2)))
+
+theorem merge_composed : MergeComposedClause := by
+  intro subs evs hw hok
+  obtain ⟨h1, _, h3⟩ := merge_correct subs.length evs hw
+  refine ⟨fun hf i p hp => (proj_prefix h1 i).trans (fed_prefix subs _ hok hf i p hp), fun hd htags hc hk => ?_⟩
+  have hI := h3 htags hc hk
+  have heq : projs subs.length (mergeRun (mergeInit subs.length) evs).2.arr = subs.map SubPipe.ideal := by
+    apply List.ext_getElem?
+    intro i
+    by_cases hi : i < subs.length
+    · rw [projs_getElem? _ _ i hi]
+      have hp : subs[i]? = some subs[i] := List.getElem?_eq_getElem hi
+      simp only [List.getElem?_map, hp, Option.map_some]
+      rw [fed_done subs _ hok hd i _ hp]
+    · have h1 : (projs subs.length (mergeRun (mergeInit subs.length) evs).2.arr)[i]? = none := by
+        apply List.getElem?_eq_none; simp [projs]; omega
+      have h2 : (subs.map SubPipe.ideal)[i]? = none := by
+        apply List.getElem?_eq_none; simp; omega
+      rw [h1, h2]
+  rw [heq] at hI
+  exact hI
+
+/-- CONCAT fed by sub-pipelines: per-branch order end to end -/
+def ConcatComposedClause : Prop :=
+  ∀ (subs : List SubPipe) (evs : List JEv), noWire evs → (∀ p ∈ subs, p.ok) →
+    let r := concatRun (concatInit subs.length) evs
+    FedBy subs r.2.arr → ∀ (i : Nat) (p : SubPipe), subs[i]? = some p → proj r.2.sent i <+: p.ideal
+
+theorem concat_composed : ConcatComposedClause := by
+  intro subs evs hw hok r hf i p hp
+  exact (proj_prefix (concat_correct subs.length evs hw).1 i).trans (fed_prefix subs _ hok hf i p hp)
+
+/-- ZIP fed by sub-pipelines: the i-th components of the tuples sent are, in order, a prefix of branch i's list
+    semantics (positional pairing of the list semantics of the branches) -/
+def ZipComposedClause : Prop :=
+  ∀ (subs : List SubPipe), 0 < subs.length → ∀ (evs : List JEv), zipOK subs.length evs → (∀ p ∈ subs, p.ok) →
+    let r := zipRun subs.length (zipInit subs.length) evs
+    FedBy subs r.2.arr → ∀ (i : Nat) (p : SubPipe), subs[i]? = some p →
+      r.2.sent.filterMap (tupAt i) <+: p.ideal
+
+theorem zip_composed : ZipComposedClause := by
+  intro subs hn evs hz hok r hf i p hp
+  have hi : i < subs.length := by
+    have := List.getElem?_eq_some_iff.mp hp; exact this.1
+  have h := zip_correct subs.length hn evs hz i hi
+  have hpre : (zipRun subs.length (zipInit subs.length) evs).2.sent.filterMap (tupAt i) <+:
+      proj (zipRun subs.length (zipInit subs.length) evs).2.arr i := by
+    rw [← h]; exact List.prefix_append _ _
+  exact hpre.trans (fed_prefix subs _ hok hf i p hp)
+
+/-- the composed statement for the fan-in junctions -/
+theorem C46_composed_holds : MergeComposedClause ∧ ConcatComposedClause ∧ ZipComposedClause :=
+  ⟨merge_composed, concat_composed, zip_composed⟩
+
 /-! ### non-vacuity -/
 
 example : noWire [JEv.req 2, .value 0 (.int 1), .value 1 (.int 10), .done 0, .done 1] := by
@@ -183,5 +305,8 @@ example : (hubRun .balance (hubInit 2) [.elem (.int 5), .slotDemand 1 1, .elem (
 /-- Zip: two tuples out of [1,2,3] and [10,20]; the unmatched 3 stays buffered -/
 example : (zipRun 2 (zipInit 2) [.req 5, .value 0 (.int 1), .value 0 (.int 2), .value 1 (.int 10), .value 0 (.int 3),
       .value 1 (.int 20)]).2.sent = [.list [1, 10], .list [2, 20]] := by decide
+
+example : SubPipe.ok ⟨true, [.map 1, .opmap 2 1 none "P", .batch 2], [.int 1, .int 2, .int 3], []⟩ :=
+  ⟨by decide, Or.inl (by intro v hv; simp at hv; rcases hv with rfl | rfl | rfl <;> rfl)⟩
 
 end GoaktVerif.C46
